@@ -97,6 +97,15 @@ _add(Family(
     note="decodable items placed inside undecoded contexts that start at an offset > 0",
 ))
 
+_add(Family(
+    "layered",
+    [" -bxor 35 ", "-xor 7;", "\"FromBase64\" + \"String('R1ZASA==')\"", "reverse(\")'==ASAZ1R'(gnirtS46esaBmorF\")",
+     'atob("RnJvbUJhc2U2NFN0cmluZygnUjFaQVNBPT0nKQ==")', "RnJvbUhleFN0cmluZygnNDc1NjQwNDg0NzU2NDA0OCcp", "FromBase64String('R1ZASA==')",
+     "cmd /c ", "powershell ", '"', "'", " ", "unescape('%2Dbxor%2035')", "StrReverse('53 roxb-')"],
+    {"quick": 3, "thorough": 4},
+    note="context-dependent decoders (xor key, shell look-behind) whose context sits OUTSIDE a decodable layer and whose subject only exists INSIDE it, and vice versa",
+))
+
 _ALL_BYTES = [bytes([v]).decode("latin-1") for v in range(256)]
 _SWEEP_WRAPS = [
     (b"", b""), (b"cmd /c echo ", b" done"), (b"x c^m^d /c ", b"^"), (b"powershell -e ", b"QQBCAEMA"), (b"'powershell -c ", b"'"),
@@ -112,8 +121,8 @@ _add(Family("bytes2", _ALL_BYTES, {"quick": 1, "thorough": 2}, wraps=_SWEEP_WRAP
             note="every pair of byte values at one position of 5 templates (thorough)"))
 
 STREAM_FAMILIES = {
-    "quick": ["shell", "pwsh", "net", "concat", "kw", "mix", "xml", "b64hex", "esc", "winpath", "ctx", "bytes1"],
-    "thorough": ["shell", "pwsh", "net", "concat", "kw", "mix", "xml", "b64hex", "esc", "winpath", "ctx", "bytes1", "bytes2"],
+    "quick": ["shell", "pwsh", "net", "concat", "kw", "mix", "xml", "b64hex", "esc", "winpath", "ctx", "layered", "bytes1"],
+    "thorough": ["shell", "pwsh", "net", "concat", "kw", "mix", "xml", "b64hex", "esc", "winpath", "ctx", "layered", "bytes1", "bytes2"],
 }
 
 
